@@ -1,6 +1,6 @@
 SPECIFICATION Spec
 CONSTANTS
   CheckGenerator = FALSE
-  CheckRepr = FALSE
+  CheckRepr = TRUE
 POSTCONDITION Accepted
 CHECK_DEADLOCK FALSE
